@@ -1487,8 +1487,12 @@ get_getter(CPPType *expr_type, string expression,
   ostringstream desc;
   desc << "getter for ";
   if (element != nullptr) {
+    // Describe the variable without its initializer, but do not lose it:
+    // other constant expressions may still refer to this variable's value.
+    CPPExpression *initializer = element->_initializer;
     element->_initializer = nullptr;
     element->output(desc, 0, &parser, false);
+    element->_initializer = initializer;
     desc << ";";
   } else {
     desc << expression;
@@ -1560,8 +1564,12 @@ get_setter(CPPType *expr_type, string expression,
   ostringstream desc;
   desc << "setter for ";
   if (element != nullptr) {
+    // Describe the variable without its initializer, but do not lose it:
+    // other constant expressions may still refer to this variable's value.
+    CPPExpression *initializer = element->_initializer;
     element->_initializer = nullptr;
     element->output(desc, 0, &parser, false);
+    element->_initializer = initializer;
     desc << ";";
   } else {
     desc << expression;
